@@ -103,6 +103,9 @@ type FieldSpec struct {
 	Doc         string
 	Default     ConstantValue
 	Annotations Annotations
+
+	// linkingDefault is true while the default value is being linked.
+	linkingDefault bool
 }
 
 // compileField compiles the given Field source into a FieldSpec.
@@ -164,7 +167,9 @@ func (f *FieldSpec) Link(scope Scope) (err error) {
 		return err
 	}
 	if f.Default != nil {
+		f.linkingDefault = true
 		f.Default, err = f.Default.Link(scope, f.Type)
+		f.linkingDefault = false
 	}
 	return err
 }
